@@ -541,6 +541,11 @@ class Namespace(Evaluatable[Options]):
         return item
 
     def __getattr__(self, key: str) -> Evaluatable:
+        # _key and _members are ordinary attributes: this is only reached for them while
+        # an instance is being unpickled or copied (before its state is restored), and
+        # looking them up as members would recurse.
+        if key in ("_key", "_members"):
+            raise AttributeError(key)
         try:
             return self[key]
         except KeyError:
